@@ -220,7 +220,8 @@ def acquire_case(ck, rng, i):
             dict(index=12, my_subnet='10.1.0.0/24', peer_subnet='10.2.0.0/24', my_port=0, peer_port=443, ip_proto='tcp', mode='tunnel') if i % 2 else
             dict(index=12, my_subnet='10.3.0.0/30', peer_subnet='10.4.0.0/16', my_port=53, peer_port=53, ip_proto='udp', mode='tunnel'),
             dict(index=2 ** 29 - 1, my_subnet='2001:db8:a::/64' if mixed else '10.5.5.5/32', peer_subnet='2001:db8:b::/64' if mixed else '10.6.6.0/28', my_port=0, peer_port=0, ip_proto='any', mode='tunnel')]
-    ents = [e for e in ents if not (e['index'] == 12 and i % 2 and False)]
+    # a type-specific ICMP entry: the xfrm convention (and the configuration's) puts the ICMP type in the source "port" and the code in the destination "port"
+    ents.append(dict(index=13, my_subnet='10.7.0.0/24', peer_subnet='10.8.0.0/24', my_port=(8, 0, 3, 128)[i % 4], peer_port=(0, 0, 1, 0)[i % 4], ip_proto='icmp', mode='tunnel'))
     ca, cb = S.pair_conf(mode='tunnel')
     pa, pb = [], []
     for e in ents:
